@@ -30,7 +30,7 @@ ASSUMPTIONS = [
     "depth_m = depth_ft x 0.3048 is compared within 4 ulp",
 ]
 REQUIRED = ["json_exports", "json_integer_header_values", "json_text_curves", "json_nan_header_values", "json_object_curves_with_nan", "json_objects_with_infinities_and_float32", "json_infinite_values", "csv_exports", "csv_records_checked",
-            "excel_exports", "excel_text_curves", "df_roundtrips", "csv_exports_with_numpy_bool_options", "df_objects_with_numeric_looking_text_curve", "df_of_empty_object", "df_roundtrips_with_stale_suffixes", "exports_repeated_after_in_place_edits", "depth_unit_cases", "depth_conflict_cases", "depth_unrecognised_cases", "depth_cases_mnemonic_case_lower", "depth_cases_mnemonic_case_preserve"]
+            "excel_exports", "excel_text_curves", "df_roundtrips", "csv_exports_with_numpy_bool_options", "df_objects_with_numeric_looking_text_curve", "df_objects_whose_curves_stack_to_a_string_array", "df_of_empty_object", "df_roundtrips_with_stale_suffixes", "exports_repeated_after_in_place_edits", "depth_unit_cases", "depth_conflict_cases", "depth_unrecognised_cases", "depth_cases_mnemonic_case_lower", "depth_cases_mnemonic_case_preserve"]
 SOFT_DEADLINE = {"quick": 100, "thorough": 1500}
 LEVEL_TEXT = "Exploration with independent readers of every export format as oracles over generated and corpus objects."
 LEVEL_NOTE = "Trusts json/csv/openpyxl/pandas as readers; export options outside the listed sets are not covered."
@@ -120,9 +120,13 @@ def make(ctx, case):
         n = len(las.curves[0].data)
         las.append_curve("CODE", np.array(["%03d" % (i + 1) for i in range(n)]), descr="text curve of numeric-looking codes")
         # the same kind of curve held as an object array of str (what pandas hands back, and what set_data_from_df(df()) stores)
-        las.append_curve("OCODE", np.array(["%02d" % (i + 7) for i in range(n)], dtype=object), descr="object array of numeric-looking text")
+        # (every other case: without it the curves stack to one array of *strings*, which pandas >= 3 infers as its "str" dtype)
+        if case.get("seed", 0) % 2 == 0:
+            las.append_curve("OCODE", np.array(["%02d" % (i + 7) for i in range(n)], dtype=object), descr="object array of numeric-looking text")
+        else:
+            ctx.count("df_objects_whose_curves_stack_to_a_string_array")
         ctx.count("df_objects_with_numeric_looking_text_curve")
-    if case.get("textcurve") and rng.random() < 0.6 and len(las.curves) and not spec.get("via_text"):
+    if case.get("textcurve") and rng.random() < 0.6 and len(las.curves) and not spec.get("via_text") and not (case.get("kind") == "df" and case.get("seed", 0) % 2 == 1):
         # an object-dtype curve mixing text and NaN (what a DataFrame with a missing text value produces)
         n = len(las.curves[0].data)
         vals = [("sand" if i % 2 else np.nan) for i in range(n)]
